@@ -356,7 +356,36 @@ def expr_uses(fn, expr, name):
     return bool(names_in(expr) & derived_names(fn, {name}))
 
 
+def r16_7(chk):
+    chk.rule("R16.7", "a sequential model collection is a chain: in _ModelCollectionBase._initialised_alt each alternate is initialised from the fit of the model BEFORE it -- the `_InitFrom(<prev>)` initialiser is built inside the loop over the alternates and `<prev>` is re-bound in that loop from the result of fitting the current alternate; built once from the null, every later alternate restarts from the null's fit, and with a limited optimiser its lnL can fall below that of the model nested in it (a negative LR for the pair alt1/alt2)")
+    from ..defuse import derived_names, expr_derives
+
+    m = chk.repo.module("app/evo.py")
+    q = "_ModelCollectionBase._initialised_alt"
+    fn = m.func(q)
+    loops = [lp for lp in walk_no_nested(fn) if isinstance(lp, ast.For) and "_alts" in norm(lp.iter)]
+    if not loops:
+        raise AnalysisError(f"{q}: loop over the alternates not found")
+    lp = loops[0]
+    inits = [c for c in walk_no_nested(fn) if isinstance(c, ast.Call) and call_name(c) == "_InitFrom" and c.args]
+    if not inits:
+        raise AnalysisError(f"{q}: _InitFrom(...) not found")
+    k = key(m, q, "each alternate starts from the previous fit")
+    inside = [c for c in inits if any(c is x for x in ast.walk(lp))]
+    if not inside:
+        chk.violation("R16.7", k, m.loc(inits[0]), f"`{norm(inits[0])}` is built once, outside the loop over the alternates: with sequential=True every alternate is initialised from the null's fit, not from the model before it")
+    else:
+        c = inside[0]
+        prev = c.args[0]
+        fits = [st for st in ast.walk(lp) if isinstance(st, ast.Assign) and isinstance(st.value, ast.Call) and norm(st.value.func) == norm(lp.target)]
+        fitted = {t.id for st in fits for t in st.targets if isinstance(t, ast.Name)}
+        rebinds = [st for st in ast.walk(lp) if isinstance(st, ast.Assign) and any(norm(t) == norm(prev) for t in st.targets) and any(isinstance(x, ast.Name) and x.id in fitted for x in ast.walk(st.value))]
+        chk.decide(bool(rebinds), "R16.7", k, m.loc(c), f"`{norm(prev)}` is re-bound from the current fit in the loop", f"`{norm(c)}` is built in the loop but `{norm(prev)}` is never re-bound from the fitted alternate: every alternate is initialised from the same (null) fit")
+    chk.floor("R16.7", 1, "_initialised_alt")
+
+
 def run(chk):
+    r16_7(chk)
     r16_6(chk)
     r16_5(chk)
     r16_1(chk)
